@@ -31,7 +31,24 @@ func (this *HyperLogLog) zzCanaryMerge(other *HyperLogLog) *HyperLogLog {
 	other.dirty = true
 	return merged
 }
-`, Expect: []core.CanaryExpect{{Rule: "C14.merge-pure", Sub: "zzCanaryMerge"}}}}
+`, Expect: []core.CanaryExpect{{Rule: "C14.merge-pure", Sub: "zzCanaryMerge"}}}, {RelDir: "util/hll", Name: "c14lock", Src: `package hll
+
+import "sync"
+
+type zzCanaryLocked struct {
+	mu sync.Mutex
+	m  []uint32
+}
+
+// takes both operands' locks: merging a value into itself never returns
+func (this *zzCanaryLocked) zzMerge(other *zzCanaryLocked) {
+	this.mu.Lock()
+	defer this.mu.Unlock()
+	other.mu.Lock()
+	defer other.mu.Unlock()
+	copy(this.m, other.m)
+}
+`, Expect: []core.CanaryExpect{{Rule: "C14.self-merge", Sub: "zzCanaryLocked).zzMerge"}}}}
 }
 
 func runC14(p *core.Program, r *core.Report) {
@@ -47,6 +64,8 @@ func runC14(p *core.Program, r *core.Report) {
 	c14OfferPure(p, r)
 	r.Rule("C14.estimate-pure", "Cardinality() is a function of the registers: it (and the helpers it calls on the counter) assigns no field of the counter, so no estimate survives a later change of the registers", 1)
 	c14EstimatePure(p, r)
+	r.Rule("C14.self-merge", "merging a counter with itself comes back (idempotence in its in-place form): no method holds the non-re-entrant lock of its receiver while taking the same lock of another operand of its type without an identity test first", 0)
+	selfLockRule(p, r, "C14.self-merge", []string{"util/hll"})
 	r.Rule("C14.args", "no call passes two same-typed variables in each other's parameter position (precision and register count are both uint32)", 0)
 	swappedArgsLint(p, r, "C14.args", []string{"util/hll"})
 	r.Rule("C14.hash-width", "a hash is offered to the index/rank routine of its own width: no widened hash (uint64 of a 32-bit value) reaches a routine that addresses by the top bits", 1)
